@@ -161,6 +161,9 @@ fn simple_condition_regex() -> &'static Pattern {
     })
 }
 
+/// Deepest nesting of condition connectives (`!`, `exists(`, `forall(`, `&&`, `||`) the parser follows
+const MAX_CONDITION_DEPTH: usize = 64;
+
 /// GRL (Grule Rule Language) Parser
 /// Parses Grule-like syntax into Rule objects
 pub struct GRLParser;
@@ -635,6 +638,21 @@ impl GRLParser {
     }
 
     fn parse_when_clause(&self, when_clause: &str) -> Result<ConditionGroup> {
+        self.parse_when_clause_at(when_clause, 0)
+    }
+
+    /// `depth` counts the enclosing `!`, `exists(`, `forall(`, `&&` and `||` levels: input nested
+    /// deeper than `MAX_CONDITION_DEPTH` is rejected instead of recursing until the stack is exhausted.
+    fn parse_when_clause_at(&self, when_clause: &str, depth: usize) -> Result<ConditionGroup> {
+        if depth > MAX_CONDITION_DEPTH {
+            return Err(RuleEngineError::ParseError {
+                message: format!(
+                    "Condition nested deeper than {} levels",
+                    MAX_CONDITION_DEPTH
+                ),
+            });
+        }
+
         // Handle logical operators with proper parentheses support
         let trimmed = when_clause.trim();
 
@@ -653,27 +671,27 @@ impl GRLParser {
 
         // Parse OR at the top level (lowest precedence)
         if let Some(parts) = self.split_logical_operator(clause, "||") {
-            return self.parse_or_parts(parts);
+            return self.parse_or_parts(parts, depth + 1);
         }
 
         // Parse AND (higher precedence)
         if let Some(parts) = self.split_logical_operator(clause, "&&") {
-            return self.parse_and_parts(parts);
+            return self.parse_and_parts(parts, depth + 1);
         }
 
         // Handle NOT condition
         if clause.trim_start().starts_with("!") {
-            return self.parse_not_condition(clause);
+            return self.parse_not_condition(clause, depth + 1);
         }
 
         // Handle EXISTS condition
         if clause.trim_start().starts_with("exists(") {
-            return self.parse_exists_condition(clause);
+            return self.parse_exists_condition(clause, depth + 1);
         }
 
         // Handle FORALL condition
         if clause.trim_start().starts_with("forall(") {
-            return self.parse_forall_condition(clause);
+            return self.parse_forall_condition(clause, depth + 1);
         }
 
         // Handle ACCUMULATE condition
@@ -754,10 +772,10 @@ impl GRLParser {
         }
     }
 
-    fn parse_or_parts(&self, parts: Vec<String>) -> Result<ConditionGroup> {
+    fn parse_or_parts(&self, parts: Vec<String>, depth: usize) -> Result<ConditionGroup> {
         let mut conditions = Vec::new();
         for part in parts {
-            let condition = self.parse_when_clause(&part)?;
+            let condition = self.parse_when_clause_at(&part, depth)?;
             conditions.push(condition);
         }
 
@@ -778,10 +796,10 @@ impl GRLParser {
         Ok(result)
     }
 
-    fn parse_and_parts(&self, parts: Vec<String>) -> Result<ConditionGroup> {
+    fn parse_and_parts(&self, parts: Vec<String>, depth: usize) -> Result<ConditionGroup> {
         let mut conditions = Vec::new();
         for part in parts {
-            let condition = self.parse_when_clause(&part)?;
+            let condition = self.parse_when_clause_at(&part, depth)?;
             conditions.push(condition);
         }
 
@@ -802,18 +820,18 @@ impl GRLParser {
         Ok(result)
     }
 
-    fn parse_not_condition(&self, clause: &str) -> Result<ConditionGroup> {
+    fn parse_not_condition(&self, clause: &str, depth: usize) -> Result<ConditionGroup> {
         let inner_clause = clause
             .strip_prefix('!')
             .ok_or_else(|| RuleEngineError::ParseError {
                 message: format!("Expected '!' prefix in NOT condition: {}", clause),
             })?
             .trim();
-        let inner_condition = self.parse_when_clause(inner_clause)?;
+        let inner_condition = self.parse_when_clause_at(inner_clause, depth)?;
         Ok(ConditionGroup::not(inner_condition))
     }
 
-    fn parse_exists_condition(&self, clause: &str) -> Result<ConditionGroup> {
+    fn parse_exists_condition(&self, clause: &str, depth: usize) -> Result<ConditionGroup> {
         let clause = clause.trim_start();
         if !clause.starts_with("exists(") || !clause.ends_with(")") {
             return Err(RuleEngineError::ParseError {
@@ -823,11 +841,11 @@ impl GRLParser {
 
         // Extract content between parentheses
         let inner_clause = &clause[7..clause.len() - 1]; // Remove "exists(" and ")"
-        let inner_condition = self.parse_when_clause(inner_clause)?;
+        let inner_condition = self.parse_when_clause_at(inner_clause, depth)?;
         Ok(ConditionGroup::exists(inner_condition))
     }
 
-    fn parse_forall_condition(&self, clause: &str) -> Result<ConditionGroup> {
+    fn parse_forall_condition(&self, clause: &str, depth: usize) -> Result<ConditionGroup> {
         let clause = clause.trim_start();
         if !clause.starts_with("forall(") || !clause.ends_with(")") {
             return Err(RuleEngineError::ParseError {
@@ -837,7 +855,7 @@ impl GRLParser {
 
         // Extract content between parentheses
         let inner_clause = &clause[7..clause.len() - 1]; // Remove "forall(" and ")"
-        let inner_condition = self.parse_when_clause(inner_clause)?;
+        let inner_condition = self.parse_when_clause_at(inner_clause, depth)?;
         Ok(ConditionGroup::forall(inner_condition))
     }
 
